@@ -1428,3 +1428,63 @@ Lemma xassign_refused fmt x name c m vs :
 Proof.
   intros F Hv. rewrite (xassign_sub_field _ _ _ _ _ _ F). now rewrite (seq_overflow _ _ _ _ _ _ F Hv).
 Qed.
+
+(* ======================= round 7: assignment by attribute in a world of objects of different formats ======================= *)
+Lemma wattr_not_sub_field w a fields name vs :
+  (forall c m, resolve (obj_fmt w a) fields name <> TSub c m) -> wattr w a fields name vs = (w, None).
+Proof.
+  intros H. unfold wattr. destruct (resolve (obj_fmt w a) fields name) as [c m| |] eqn:E; try reflexivity.
+  exfalso. exact (H c m eq_refl).
+Qed.
+
+Lemma wattr_not_dimension w a fields name vs :
+  resolve (obj_fmt w a) fields name = TNone -> wattr w a fields name vs = (w, None).
+Proof. intros H. unfold wattr. now rewrite H. Qed.
+
+Lemma wattr_sub_field w a fields name vs c m :
+  find_sf (obj_fmt w a) (canon name) = Some (c, m) ->
+  wattr w a fields name vs = wstep w (WAssign a (OSeq (canon name) vs)).
+Proof. intros H. unfold wattr, resolve. now rewrite H. Qed.
+
+(* what was assigned under a name to an object where the name is no sub-field does not take part in the assignment of
+   that name to another object (or to the same one) later *)
+Lemma wattr_history w a fa b fb name name' vs vs' :
+  (forall c m, resolve (obj_fmt w a) fa name <> TSub c m) ->
+  wattr (fst (wattr w a fa name vs)) b fb name' vs' = wattr w b fb name' vs'.
+Proof. intros H. now rewrite (wattr_not_sub_field _ _ _ _ vs H). Qed.
+
+Lemma family_split fmt : In fmt known_fmts ->
+  (fmt < 6 -> find_sf fmt "overlap" = None /\ find_sf fmt "scanner_channel" = None)
+  /\ (6 <= fmt -> find_sf fmt "overlap" = Some ("classification_flags"%string, 8)
+                  /\ find_sf fmt "scanner_channel" = Some ("classification_flags"%string, 48)).
+Proof.
+  intros H. vm_compute in H.
+  repeat (destruct H as [<-|H]; [split; intros L; try (exfalso; lia); vm_compute; split; reflexivity|]).
+  contradiction.
+Qed.
+
+(* the two names that are sub-fields of one format family only: on an object of format 0-5, obj.overlap = vs /
+   obj.scanner_channel = vs changes no point of any object, and the same assignment made afterwards to an object b is what
+   it is without that history - on an object of format 6-10 it IS the whole-dimension assignment to bits 3 / bits 4-5 of
+   classification_flags *)
+Lemma attr_family_names w a fa b fb name vs vs' :
+  In (obj_fmt w a) known_fmts -> obj_fmt w a < 6 -> name = "overlap"%string \/ name = "scanner_channel"%string ->
+  wattr w a fa name vs = (w, None)
+  /\ wattr (fst (wattr w a fa name vs)) b fb name vs' = wattr w b fb name vs'
+  /\ (In (obj_fmt w b) known_fmts -> 6 <= obj_fmt w b -> wattr w b fb name vs' = wstep w (WAssign b (OSeq name vs'))).
+Proof.
+  intros K L N. destruct (family_split _ K) as [F _]. destruct (F L) as [F1 F2].
+  assert (C1 : canon "overlap" = "overlap"%string) by (vm_compute; reflexivity).
+  assert (C2 : canon "scanner_channel" = "scanner_channel"%string) by (vm_compute; reflexivity).
+  assert (NS : forall c m, resolve (obj_fmt w a) fa name <> TSub c m).
+  { intros c m. unfold resolve. destruct N as [-> | ->]; [rewrite C1, F1 | rewrite C2, F2];
+      destruct (existsb _ fa); discriminate. }
+  split; [exact (wattr_not_sub_field _ _ _ _ vs NS)|]. split; [exact (wattr_history _ _ _ _ _ _ _ vs vs' NS)|].
+  intros K' L'. destruct (family_split _ K') as [_ G]. destruct (G L') as [G1 G2].
+  destruct N as [-> | ->].
+  - rewrite <- C1 at 2. apply (wattr_sub_field _ _ _ _ _ "classification_flags"%string 8). now rewrite C1.
+  - rewrite <- C2 at 2. apply (wattr_sub_field _ _ _ _ _ "classification_flags"%string 48). now rewrite C2.
+Qed.
+
+Lemma wrun7_ops : forall ops w, wrun7 w (map WOp ops) = wrun w ops.
+Proof. induction ops as [|o t IH]; intros w; simpl; [reflexivity|]. now rewrite IH. Qed.
